@@ -540,6 +540,20 @@ func State(gs map[string]any, site, line, col, off int, text []byte, st map[stri
 	return nil
 }
 
+// CopyStore returns a new map with the entries of st (the values themselves
+// are shared): a state block that installs it (`c.state = k.CopyStore(c.state)`)
+// replaces the store wholesale without changing what it contains.
+func CopyStore(st map[string]any) map[string]any {
+	if st == nil {
+		return nil
+	}
+	out := make(map[string]any, len(st))
+	for k, v := range st {
+		out[k] = v
+	}
+	return out
+}
+
 // InitVal decodes an initial state value given to the InitState option:
 // "C:a,b" is a Cloner value, anything else a string.
 func InitVal(s string) any {
